@@ -67,9 +67,17 @@ ASSUMPTIONS = ['x_prev is feasible for the original problem (what the optimiser 
 EXTRA = [
     ('split_two_node_mask', 'two_node', dict(T=4), ('mask', [1, 1, 1, 0]), dict(split='2h')),
     ('split_contract_storage_date', 'contract_storage', dict(T=4, storage_kw=dict(start_eq_end=True)), ('date', 2, 30), dict(split='2h')),
+    ('split_two_node_date_on_grid_point', 'two_node', dict(T=4), ('date', 2, 0), dict(split='2h')),
+    ('split_two_node_date_on_interval_border', 'two_node', dict(T=4), ('date', 1, 0), dict(split='2h')),
     ('split_orderbook_last_mask', 'orderbook', dict(T=4, ob_last=True, orders=((0, 1, 2.0), (2, 4, -1.5), (3, 4, 1.0))), ('mask', [0, 1, 1, 0]), dict(split='2h')),
     ('storage_starts_after_window_no_simult', 'contract_storage', dict(T=4, win_s=(2, 4), storage_kw=dict(no_simult_in_out=True)), ('mask', [1, 1, 0, 0]), {}),
     ('plant_starts_inside_window', 'plant', dict(T=4, fuel=True, mr=2, win=(1, 4)), ('mask', [1, 1, 0, 0]), {}),
+    # dates that coincide with a grid point on grids whose step is not exactly representable in the main time unit (10 min in hours, 1 h in days)
+    ('date_on_grid_point_10min_k2', 'two_node', dict(T=6, freq='10min', unit='h'), ('date', 2, 0), {}),
+    ('date_on_grid_point_10min_k4', 'two_node', dict(T=6, freq='10min', unit='h'), ('date', 4, 0), {}),
+    ('date_on_grid_point_hours_in_days_k3', 'two_node', dict(T=6, freq='h', unit='d'), ('date', 3, 0), {}),
+    ('date_on_grid_point_hours_in_days_k5', 'two_node', dict(T=6, freq='h', unit='d'), ('date', 5, 0), {}),
+    ('plant_min_cap_column_zero_in_new_data', 'plant_mincap_col', dict(T=3), ('mask', [1, 1, 0]), {}),
     ('zone_aware_grid_date', 'two_node', dict(T=4, gridv='hour_cet_dst'), ('date', 2, 0), {}),
     ('dst_repeated_hour_first_occurrence', 'two_node', dict(T=6, freq=('h', '2021-10-31 00:00', '2021-10-31 05:00', 'CET')), ('date', 2, 0), {}),
     ('dst_repeated_hour_second_occurrence', 'two_node', dict(T=6, freq=('h', '2021-10-31 00:00', '2021-10-31 05:00', 'CET')), ('date', 3, 30), {}),
@@ -159,6 +167,8 @@ def scenario(D, shape, kw, win, env=None, split=None, reuse=False):
     for k, v in sh.prices.items():
         if k in ('capmin', 'capmax', 'ecs'):
             newp[k] = v
+        elif k == 'mincap':
+            newp[k] = np.zeros(len(v))          # the new data set has no minimum capacity any more (the variables of the problem must stay the same)
         else:
             newp[k] = D.arr('new_' + k, len(v))
     arg, steps = window_arg(tg, win)
